@@ -26,3 +26,11 @@ package random
 //@   loop 1
 //@     invariant 0 <= i && (i <= length || length < 0) && (length < 0 ==> i == 0) && bSize == len(baseStr) && strBuilder.blen == i
 //@     invariant #alphabet forall k int :: { strBuilder.bbytes[k] } 0 <= k && k < i ==> exists t int :: 0 <= t && t < len(baseStr) && strBuilder.bbytes[k] == baseStr[t]
+//
+//@ func SecGenNonceStr
+//@   trusted seeds math/rand from crypto/rand and calls genNonceStr (verified above) with the source's Intn
+//@   ensures len(result) == ite(length < 0, 0, length)
+//@   modifies
+//@ func MD5UUID
+//@   trusted returns some string (uuid hash), no side effects on the verified state
+//@   modifies
